@@ -134,6 +134,10 @@ type Item struct {
 	Each    bool // read after each write (else after the last)
 	Pol     Policy
 	Reverse bool // run over Link.Alt (the opposite direction of the same connection)
+	// CloseEarly (last item only): the writer closes BEFORE the reader reads what the last Write sent
+	// (Transfer.RunClosing), so the end of the stream travels behind the data and - with SetEOFWithData on the
+	// reader's raw end - arrives in the same Read call as the last segment.
+	CloseEarly bool
 }
 
 // SeqResult is the result of one execution: a fresh Link and a sequence of fault-free transfers over it.
@@ -166,6 +170,17 @@ func RunFidelity(t *testing.T, setup func() (*Link, error), items []Item, buf *[
 				ll = l.Alt
 			}
 			tr = ll.transfer(it.Payload, it.Writes, it.Each, it.Pol, *buf)
+			if it.CloseEarly && i == len(items)-1 && ll.CloseW != nil {
+				res.End, res.Problem = tr.RunClosing(ll.CloseW)
+				*buf = tr.Buf
+				if res.Problem == nil {
+					res.Done = i + 1
+					if after != nil {
+						after(i, tr, l)
+					}
+				}
+				return
+			}
 			res.Problem = tr.Run()
 			*buf = tr.Buf
 			if res.Problem != nil {
